@@ -49,6 +49,14 @@ def run(F, R):
     h2_constants(F, R)
     h4_gated(F, R, M)
     h5_net(F, R)
+    # H5 (use sites): every network-driver function that touches a header form selects it with the legacy-header flag
+    # (12-byte modern form exactly when the flag - i.e. not VERSION_1 - is clear); shared with C16.S1
+    if 'device::net::VirtioNetHdr' in F.adts:
+        from . import C16 as _c16, C05 as _c5
+        _roles = _c5.classify_api(_c5.queue_api(F, M))
+        _h12, _h10 = _c16.hdr_types(F)
+        if len(_h12) == 1 and len(_h10) == 1:
+            _c16.s1_selector(F, RuleProxy(R, {'S1': 'H5'}), _roles, _h12[0], _h10[0])
 
 
 def h0(F, R):
